@@ -444,6 +444,98 @@ def pulser_ids(rep: Report, rng, count: int, replay_cases=None) -> None:
     rep.extra["pulser_ids_max_column_err"] = max(worst_col, rep.extra.get("pulser_ids_max_column_err", 0.0))
 
 
+
+def pulser_phases(rep: Report, rng, count: int, replay_cases=None) -> None:
+    """real Pulser sequences of 2-4 pulses with >= 2 distinct phases, and the same sequence with a global phase offset that moves
+    phases into (pi/2, 3pi/2), beyond 2pi and below 0: (i) the drive the adapter extracts, Omega e^{i phi} per time step, must be
+    the sampled one (cos/sin of the extracted phase = cos/sin of the sampled phase: exact, mid-times fall on samples for even dt);
+    (ii) all observables are invariant under the offset"""
+    np, torch, tio, compat = _imports()
+    import logging
+    import warnings
+    import harness.pytest_compat  # noqa: F401
+    import pulser
+    import pulser.backend as pb
+    from pulser.devices import MockDevice
+    from pulser.sampler import sample
+    from emu_base.pulser_adapter import PulserData
+    from emu_sv import SVConfig
+
+    def build(coords, pulses, theta):
+        reg = pulser.Register({f"q{i}": c for i, c in enumerate(coords)})
+        seq = pulser.Sequence(reg, MockDevice)
+        seq.declare_channel("ch", "rydberg_global")
+        for dur, amp, det, ph in pulses:
+            seq.add(pulser.Pulse.ConstantPulse(dur, amp, det, ph + theta), "ch")
+        return seq
+
+    def evaluate(seq, dt=10):
+        ev = [1.0]
+        obs = [pb.Occupation(evaluation_times=ev), pb.CorrelationMatrix(evaluation_times=ev), pb.Energy(evaluation_times=ev)]
+        with warnings.catch_warnings():
+            warnings.simplefilter("ignore")
+            cfg = SVConfig(gpu=False, log_level=logging.ERROR, dt=dt, observables=obs, krylov_tolerance=1e-13)
+            data = list(PulserData(sequence=seq, config=cfg, dt=dt).get_sequences())[0]
+            r = compat.run_sv(data, cfg)
+            loc = sample(seq).to_nested_dict(all_local=True, samples_type="tensor")["Local"]["ground-rydberg"]
+        tt = data.target_times
+        worst = 0.0
+        for k, qid in enumerate(seq.register.qubit_ids):
+            amp = torch.as_tensor(loc[qid]["amp"]).real
+            phs = torch.as_tensor(loc[qid]["phase"]).real
+            for st in range(len(tt) - 2):
+                tm = 0.5 * (tt[st] + tt[st + 1])
+                if tm == int(tm) and 0 < int(tm) < len(phs) - 1 and float(phs[int(tm) - 1]) == float(phs[int(tm) + 1]):
+                    want = float(amp[int(tm)]) * complex(math.cos(float(phs[int(tm)])), math.sin(float(phs[int(tm)])))
+                    ph_x = float(data.phi[st, k].real)
+                    got = float(data.omega[st, k].real) * complex(math.cos(ph_x), math.sin(ph_x))
+                    worst = max(worst, abs(got - want))
+        res = (np.asarray(torch.as_tensor(r.get_result("occupation", 1.0)).tolist()),
+               np.asarray(torch.as_tensor(r.get_result("correlation_matrix", 1.0)).tolist()), float(r.get_result("energy", 1.0)))
+        return res, worst
+
+    worst_d, worst_s = 0.0, 0.0
+    for i in range(len(replay_cases) if replay_cases is not None else count):
+        if replay_cases is not None:
+            rc = replay_cases[i]
+            coords, pulses, thetas = [tuple(c) for c in rc["coords"]], [tuple(p_) for p_ in rc["pulses"]], rc["thetas"]
+            base_ph = [p_[3] for p_ in pulses]
+        else:
+            n = rng.randint(2, 3)
+            coords = [(7.0 * k + rng.uniform(-0.5, 0.5), rng.uniform(-1, 1) + (5.5 if k == 2 else 0.0)) for k in range(n)]
+            npul = rng.randint(2, 4)
+            base_ph = [rng.choice([0.0, 0.3, 1.2, 2.0, 2.9, 3.6, 4.4, 5.5])]
+            while len(base_ph) < npul:
+                c = rng.choice([0.0, 0.4, 1.0, 1.9, 2.6, 3.3, 4.0, 4.9, 5.8])
+                if c != base_ph[-1]:
+                    base_ph.append(c)
+            pulses = [(rng.choice([40, 60, 100]), rng.uniform(3, 9), rng.uniform(-6, 6), ph) for ph in base_ph]
+            thetas = rng.sample([0.9, 1.7, 2.5, 3.14159, 4.0, 5.2, 7.0, -0.8, -2.0, -4.5], 2)
+        rep.case(key=("pulser-phases", i), nontrivial=True, trace=False)
+        data = dict(kind="pulser-phases", coords=coords, pulses=pulses, thetas=thetas)
+        try:
+            base, err = evaluate(build(coords, pulses, 0.0))
+            worst_s = max(worst_s, err)
+            if err > 1e-9:
+                rep.fail(f"pulser adapter: the extracted drive Omega e^(i phi) differs from the sampled sequence by {err:.3e} "
+                         f"(phases {base_ph})", dict(data, variant="base"))
+            for th in thetas:
+                got, err = evaluate(build(coords, pulses, th))
+                worst_s = max(worst_s, err)
+                if err > 1e-9:
+                    rep.fail(f"pulser adapter: the extracted drive Omega e^(i phi) differs from the sampled sequence by {err:.3e} "
+                             f"(phases {[round(p_ + th, 3) for p_ in base_ph]})", dict(data, variant=f"offset {th}"))
+                d = dist(got, base)
+                worst_d = max(worst_d, d)
+                if d > TOL_SV:
+                    rep.fail(f"real Pulser sequence with phases {base_ph}: results change by {d:.3e} > {TOL_SV:.0e} when {th:+.3f} is added to "
+                             "the phase of every pulse", dict(data, variant=f"offset {th}"))
+        except Exception as e:
+            rep.fail(f"pulser multi-phase path raised {type(e).__name__}: {e}", data, klass=None)
+    rep.extra["pulser_phases_max_offset_diff"] = max(worst_d, rep.extra.get("pulser_phases_max_offset_diff", 0.0))
+    rep.extra["pulser_phases_max_sample_err"] = max(worst_s, rep.extra.get("pulser_phases_max_sample_err", 0.0))
+
+
 # ------------------------------------------------------------------ check
 def check(rep: Report, tier: str, seed: int) -> None:
     import time
@@ -476,6 +568,7 @@ def check(rep: Report, tier: str, seed: int) -> None:
     e2e_noisy(rep, seeded(seed * 32452843 + 29), 6 if quick else 60)
     pulser_meta(rep, seeded(seed * 1299709 + 29), 3 if quick else 40)
     pulser_ids(rep, seeded(seed * 15485863 + 29), 3 if quick else 30)
+    pulser_phases(rep, seeded(seed * 49979687 + 29), 4 if quick else 60)
     extra.merge()
     rep.extra["t_total_s"] = round(time.time() - t0, 1)
     if rep.broken and not rep.failing:
@@ -522,6 +615,14 @@ def replay(rep: Report, path: str) -> int:
             e = max(float(((Hs * v) - V * (H * (V.conj() * v))).abs().max()), float(((Hn * v) - (H * v.conj()).conj()).abs().max())) / sc
             print(f"replay: Hamiltonian identities n={n}: {e:.3e}", "FAILS" if e > TOL_H else "holds now")
             bad += e > TOL_H
+        elif k == "pulser-phases":
+            r2 = Report(rep.prop, "quick", 0)
+            pulser_phases(r2, None, 0, replay_cases=[d])
+            for x in r2.failing[:3]:
+                print("replay:", x["what"][:200], "FAILS")
+            if not r2.failing:
+                print("replay: extracted drive = sampled drive and offset invariance: holds now")
+            bad += bool(r2.failing)
         elif k == "pulser-ids":
             r2 = Report(rep.prop, "quick", 0)
             pulser_ids(r2, None, 0, replay_cases=[d])
